@@ -582,7 +582,7 @@ INTS = [0, 1, -1, 2, 3, -7, 255, 2**53, 2**53 + 1, -(2**53) - 1, 10**30, -(10**3
 FLOATS = [0.0, -0.0, 1.0, 2.0, -3.0, 2.5, -0.5, 1e300, 1e-300, 5e-324, 2.0**53, float(2**70), math.inf, -math.inf, math.nan,
           1.7976931348623157e308, 1e22, 123456789.0]
 STRS = ["", "a", "ab", "path", "$type", "x/y", "a//b/./c/", "/abs/p", "//net/x", "///t", "é", "中", "a b", ".", "..", "./r",
-        "r/..", "/"]
+        "r/..", "/", "3", "2.5", "-1", "1e3", "nan", "inf", " 4 ", "True", "0"]
 KEYS = ["a", "b", "k1", "$type", "$value", "type", "", "x/y"]
 ENUMS = {0: ["A", "B", "C"], 1: ["A", "Z"]}
 
@@ -1482,7 +1482,12 @@ def run_graph_case(ctx, classes, defaults, W, mros, g, lines, impls, metas, with
     miss_top = [n for n in reach_top if node_missing(g, classes, n)]
     cyc = has_cycle(g)
     # (b) the validation walk itself
-    w = build_graph(g, classes, W)
+    try:
+        w = build_graph(g, classes, W)
+    except Exception as e:  # the real constructor/setattr refuses a conforming graph: an outcome, not a harness error
+        ctx.disagree(case, "graph of conforming values", f"building raised {type(e).__name__}: {e}"[:300], "building a configuration graph of conforming values")
+        ctx.count("graph_build_error", type(e).__name__)
+        return
     root = w.objs[g["root"]]
     if g["nodes"][g["root"]]["init"]:
         root.__xpm__.init_tasks = [w.objs[m] for m in g["nodes"][g["root"]]["init"]]
@@ -1511,7 +1516,11 @@ def run_graph_case(ctx, classes, defaults, W, mros, g, lines, impls, metas, with
         sub, jobs = instant(ctx).submit(r2, init)
         out.update(submit=sub, jobs=jobs)
         # ---- monitor: the property's second sentence
-        if miss_deep and (sub.startswith("accepted") or jobs != 0):
+        if miss_deep and not sub.startswith("accepted") and jobs != 0:
+            ctx.monitor_fail("submit-registers-before-rejecting",
+                             f"submit raised ({sub}) for a task with a missing required value at node {miss_deep[0]}, but the scheduler registry "
+                             f"already holds {jobs} job(s)", case)
+        elif miss_deep and sub.startswith("accepted"):
             where = "direct" if miss_top else "inside-container"
             n = miss_deep[0]
             ctx.monitor_fail(f"submit-accepts-missing:{where}",
@@ -1535,7 +1544,7 @@ def run_graph_case(ctx, classes, defaults, W, mros, g, lines, impls, metas, with
             out["resubmit"] = sub3.split(":")[0]
             if sub3.startswith("accepted") or jobs3 != 0:
                 ctx.monitor_fail("resubmit-accepts-missing",
-                                 f"a task was rejected because node {miss_top[0]} misses a required value; a second, new task holding the same "
+                                 f"a task was rejected because node {(miss_top or miss_deep or ['?'])[0]} misses a required value; a second, new task holding the same "
                                  f"sub-configurations is accepted by submit (registry holds {jobs3} job(s)): the _validated flag set by the failed validation hides the gap",
                                  dict(case, resubmit=True))
     lines.append(graph_line(impl, classes, g, mros))
